@@ -331,6 +331,8 @@ struct Utxo {
     multisig_uncompressed: bool,
     /// none | top-level | in-branch | after-branch
     sep_class: &'static str,
+    /// plain P2PKH whose locking script was assembled by the library (P2PKHAddress::get_locking_script), not by the harness
+    lock_from_api: bool,
 }
 
 fn pubkey_bytes(k: usize, compressed: bool) -> Vec<u8> {
@@ -463,7 +465,28 @@ fn build_utxo(u: &Value) -> Option<Utxo> {
         "none"
     };
     let (txid, vout) = if jbool(u, "coinbase_like") { (vec![0u8; 32], 0xffff_ffffu32) } else { (jhex(u, "txid"), ju64(u, "vout") as u32) };
-    Some(Utxo { family, m, keys, verify, value: ju64s(u, "value"), txid, vout, lock, subscript, subscript_first, sep_in_branch: last_is_branch, n_seps: seps.len(), compressed, multisig_uncompressed: jbool(u, "multisig_uncompressed"), sep_class })
+    // "standard P2PKH spends assembled through the library's own API": for the plain shape the locking script is the library's
+    let mut lock = lock;
+    let mut subscript = subscript;
+    let mut subscript_first = subscript_first;
+    let mut lock_from_api = false;
+    if family == "p2pkh" && jbool(u, "lock_api") && seps.is_empty() && !sep_in_branch && pad == 0 && !verify {
+        let pkb = pubkey_bytes(keys[0], compressed);
+        let api = guard(|| -> Option<Vec<u8>> {
+            let pk = PublicKey::from_bytes(&pkb).ok()?;
+            let a = P2PKHAddress::from_pubkey(&pk).ok()?;
+            Some(a.get_locking_script().ok()?.to_bytes())
+        });
+        if let Ok(Some(b)) = api {
+            if Script::from_bytes(&b).is_ok() {
+                lock = b;
+                subscript = lock.clone();
+                subscript_first = lock.clone();
+                lock_from_api = true;
+            }
+        }
+    }
+    Some(Utxo { family, m, keys, verify, value: ju64s(u, "value"), txid, vout, lock, subscript, subscript_first, sep_in_branch: last_is_branch, n_seps: seps.len(), compressed, multisig_uncompressed: jbool(u, "multisig_uncompressed"), sep_class, lock_from_api })
 }
 
 struct SigRec {
@@ -529,7 +552,7 @@ impl Scenario for SpendNet {
             real: &["bsv::Transaction (add_input/add_output/set_input/set_output/set_version/set_nlocktime, sign, to/from extended CBOR and JSON)", "bsv::Interpreter::{from_transaction, run, state}", "bsv::Script::{from_bytes, from_asm_string}", "bsv::P2PKHAddress::{from_pubkey, get_unlocking_script}", "bsv::SighashSignature, bsv::TxIn extended fields"],
             stub: &["covered-view model: a ~40-line table of which fields each flag commits to (not a byte-level preimage)", "ByzSigner: RFC 6979 textbook signer over the byte-reversed double-SHA256 of the library's own preimage", "locking scripts are assembled byte-wise by the harness (families fixed by the statement)"],
             assumptions: &["value mutations are not generated for legacy-flag signatures: the original algorithm does not commit to the value although the statement lists it", "ship events are applied only when the restored object re-serialises identically and keeps every input's locking script and declared value (fidelity of the formats is C18's subject)", "inputs/outputs are appended, replaced, prepended and inserted; an inserted input shifts the ones behind it together with their signatures and scripts"],
-            required_probes: &["validate_expect_accept", "validate_expect_reject", "signed_before_build_complete", "mutated_covered_field", "mutated_uncovered_field", "family_p2pk", "family_p2pkh", "family_multisig", "family_twostage", "flag_legacy", "flag_forkid", "separator_present", "shipped", "byz_signed", "sig_tampered", "validated_on_shipped_copy", "validated_under_stdout_fault", "ref_signed", "lib_signature_checked_against_reference_preimage"],
+            required_probes: &["validate_expect_accept", "validate_expect_reject", "signed_before_build_complete", "mutated_covered_field", "mutated_uncovered_field", "family_p2pk", "family_p2pkh", "family_multisig", "family_twostage", "flag_legacy", "flag_forkid", "separator_present", "shipped", "byz_signed", "sig_tampered", "validated_on_shipped_copy", "validated_under_stdout_fault", "ref_signed", "lib_signature_checked_against_reference_preimage", "multisig_signers_are_another_subset", "multisig_first_key_does_not_sign", "finalise_with_outsider_signature", "p2pkh_lock_from_library_api"],
             quick_runs: 15_000,
             thorough_runs: 1_500_000,
             rlimit_as: 4 << 30,
@@ -556,7 +579,7 @@ impl Scenario for SpendNet {
             txid[0] = u as u8;
             utxos.push(json!({"family": family, "m": rng.range(1, n), "keys": keys, "verify": rng.chance(1, 3), "uncompressed": rng.chance(1, 5), "seps": seps,
                 "sep_in_branch": rng.chance(1, 12), "branch_at": rng.below(8), "pad": if rng.chance(1, 4) { *rng.pick(&[1u64, 75, 76, 200, 255, 256, 300]) } else { 0 }, "pad_to": if rng.chance(1, 8) { *rng.pick(&[252u64, 253, 254, 252, 253, 65535, 65536, 65537]) } else { 0 },
-                "branch_form": rng.below(3), "multisig_uncompressed": rng.chance(1, 8), "coinbase_like": rng.chance(1, 30), "value": u64s(match rng.below(4) { 0 => 0, 1 => u64::MAX, _ => rng.below(1 << 44) }), "txid": hx(&txid), "vout": rng.below(3)}));
+                "branch_form": rng.below(3), "lock_api": rng.chance(1, 2), "multisig_uncompressed": rng.chance(1, 8), "coinbase_like": rng.chance(1, 30), "value": u64s(match rng.below(4) { 0 => 0, 1 => u64::MAX, _ => rng.below(1 << 44) }), "txid": hx(&txid), "vout": rng.below(3)}));
         }
         let mut events = vec![json!({"op": "setup", "utxos": utxos, "version": *rng.pick(&[1u32, 2, 0, u32::MAX]), "locktime": *rng.pick(&[0u32, 1, 499_999_999, u32::MAX])})];
         let n_events = rng.range(6, 40);
@@ -607,7 +630,13 @@ impl Scenario for SpendNet {
                     events.push(o);
                     n_out += 1;
                 }
-                events.push(json!({"op": "finalise", "input": i, "order": match rng.below(14) { 0 => "desc", 1 => "dup", _ => "asc" }, "api": rng.chance(1, 2)}));
+                // which of the listed keys sign: any subset (bit k set = key position k stays out), sometimes an outsider
+                let skip = if rng.chance(1, 2) { rng.below(7) } else { 0 };
+                let wrong = rng.chance(1, 10);
+                if wrong {
+                    events.push(json!({"op": "sign", "input": i, "slot": rng.below(3), "flag": flag, "wrong_key": true}));
+                }
+                events.push(json!({"op": "finalise", "input": i, "order": match rng.below(14) { 0 => "desc", 1 => "dup", _ => "asc" }, "api": rng.chance(1, 2), "skip": skip, "wrong": wrong, "wrong_at": rng.below(3)}));
                 if rng.chance(1, 3) {
                     // another party finalises a different input in between (the normal workflow)
                     let j = rng.below(n_in);
@@ -739,6 +768,7 @@ impl SpendNet {
             }
             ctx.seq = seq;
             let op = jstr(ev, "op").to_string();
+            ctx.crumb(&op);
             match op.as_str() {
                 "setup" => {
                     if !utxos.is_empty() {
@@ -748,6 +778,9 @@ impl SpendNet {
                     for u in ev.get("utxos").and_then(|a| a.as_array()).cloned().unwrap_or_default() {
                         if let Some(x) = build_utxo(&u) {
                             if x.txid.len() == 32 {
+                                if x.lock_from_api {
+                                    ctx.probe("p2pkh_lock_from_library_api");
+                                }
                                 utxos.push(x);
                             }
                         }
@@ -867,11 +900,15 @@ impl SpendNet {
                                 let bytes = sig.to_bytes().unwrap_or_default();
                                 ctx.observe(&bytes);
                                 // the library's signature must be a valid ECDSA signature over the SPECIFIED preimage
-                                if let (Some(rp), Ok(s2)) = (ref_preimage(&m, i, flag_b, &sub_bytes, value), bsv::Signature::from_der(&bytes[..bytes.len().saturating_sub(1)])) {
+                                let rs = rf::der_rs(&bytes[..bytes.len().saturating_sub(1)]);
+                                if rs.is_none() {
+                                    ctx.probe("lib_signature_not_der_plus_flag");
+                                }
+                                if let (Some(rp), Some((s2r, s2s))) = (ref_preimage(&m, i, flag_b, &sub_bytes, value), rs) {
                                     ctx.probe("lib_signature_checked_against_reference_preimage");
                                     let d = ref_hash("sha256d", &rp);
                                     let pkb = pubkey_bytes(key, true);
-                                    if !rf::ecdsa_verify(&pkb, &d, &s2.r(), &s2.s()) {
+                                    if !rf::ecdsa_verify(&pkb, &d, &s2r, &s2s) {
                                         let fl = if is_forkid(flag_b) { "forkid" } else { "legacy" };
                                         if ctx.tracing() {
                                             let lp = tx.sighash_preimage(flag, i, &sub, value).unwrap_or_default();
@@ -936,12 +973,47 @@ impl SpendNet {
                     let ut = utxos[m.ins[i].utxo].clone();
                     // latest signature per key slot; need m of them
                     let mut chosen: Vec<usize> = vec![];
-                    for k in &ut.keys {
+                    let mut chosen_positions: Vec<usize> = vec![];
+                    let skip_mask = ju64(ev, "skip");
+                    for (kp, k) in ut.keys.iter().enumerate() {
+                        if skip_mask & (1 << kp) != 0 && ut.family == "multisig" {
+                            continue;
+                        }
                         if let Some(pos) = ins[i].sigs.iter().rposition(|s| s.key == *k) {
                             chosen.push(pos);
+                            chosen_positions.push(kp);
                         }
                         if chosen.len() == ut.m {
                             break;
+                        }
+                    }
+                    if skip_mask != 0 && ut.family == "multisig" && chosen.len() < ut.m {
+                        // the requested subset cannot supply m signers: fall back to the first m that signed
+                        chosen.clear();
+                        chosen_positions.clear();
+                        for (kp, k) in ut.keys.iter().enumerate() {
+                            if let Some(pos) = ins[i].sigs.iter().rposition(|s| s.key == *k) {
+                                chosen.push(pos);
+                                chosen_positions.push(kp);
+                            }
+                            if chosen.len() == ut.m {
+                                break;
+                            }
+                        }
+                    }
+                    if ut.family == "multisig" && chosen.len() == ut.m {
+                        let prefix: Vec<usize> = (0..ut.m).collect();
+                        ctx.probe(if chosen_positions == prefix { "multisig_signers_are_the_first_m_keys" } else { "multisig_signers_are_another_subset" });
+                        if ut.m < ut.keys.len() && chosen_positions.first() != Some(&0) {
+                            ctx.probe("multisig_first_key_does_not_sign");
+                        }
+                    }
+                    if jbool(ev, "wrong") && !chosen.is_empty() {
+                        // an outsider's signature takes one of the places (expected to be rejected)
+                        if let Some(pos) = ins[i].sigs.iter().rposition(|s| !ut.keys.contains(&s.key)) {
+                            let at = jusize(ev, "wrong_at") % chosen.len();
+                            chosen[at] = pos;
+                            ctx.probe("finalise_with_outsider_signature");
                         }
                     }
                     // a signature by a key outside the script may stand in (expected to be rejected)
